@@ -10,7 +10,7 @@ pub const VAR_NAMES: &[&str] = &[
 ];
 pub const PRED_NAMES: &[&str] = &["p", "q", "r", "s", "hp", "tp", "t", "h", "q_p", "p__s"];
 // "tp"/"hq"/"hp" collide with the h-/t-prefixed copies of 0-ary predicates (rename_conflicting_symbols)
-pub const SYM_NAMES: &[&str] = &["a", "b", "c", "n", "p", "s", "tp", "hq", "hp"];
+pub const SYM_NAMES: &[&str] = &["a", "b", "c", "n", "p", "s", "tp", "hq", "hp", "out2"];
 pub const FC_NAMES: &[&str] = &["a", "n", "c"];
 /// identifier shapes the input grammars accept but that stress the TFF name mangling (C09)
 pub const HOSTILE_SYMS: &[&str] = &["a", "b", "_a", "n_i", "general", "symbol", "p", "a__s", "c_g", "x_s", "f__integer__", "tp", "hq", "tp__s"];
@@ -22,11 +22,15 @@ pub struct Gen {
     pub nvars: usize,
     pub npreds: usize,
     pub hostile: bool,
+    /// subformulas / terms generated earlier in the same case, reused now and then so that structurally equal parts
+    /// turn up in arbitrary positions (`F or not F`, `(F or G) and G`, `X = t and Y = t < u`, ...)
+    pub fpool: Vec<fol::Formula>,
+    pub tpool: Vec<fol::GeneralTerm>,
 }
 
 impl Gen {
     pub fn new(rng: Rng) -> Self {
-        Gen { rng, nvars: 8, npreds: 4, hostile: false }
+        Gen { rng, nvars: 8, npreds: 4, hostile: false, fpool: vec![], tpool: vec![] }
     }
 
     pub fn numeral(&mut self) -> isize {
@@ -102,6 +106,15 @@ impl Gen {
     }
 
     pub fn gterm(&mut self, depth: usize) -> fol::GeneralTerm {
+        if !self.tpool.is_empty() && self.rng.chance(1, 7) {
+            return self.rng.pick(&self.tpool).clone();
+        }
+        let t = self.gterm_new(depth);
+        if self.tpool.len() < 6 { self.tpool.push(t.clone()); } else { let k = self.rng.below(6); self.tpool[k] = t.clone(); }
+        t
+    }
+
+    fn gterm_new(&mut self, depth: usize) -> fol::GeneralTerm {
         use fol::GeneralTerm::*;
         match self.rng.below(12) {
             0 => Infimum,
@@ -200,6 +213,15 @@ impl Gen {
         }))
     }
 
+    /// `l = r`, now and then continued as a chain `l = r rel u`
+    fn eq_chain(&mut self, l: fol::GeneralTerm, r: fol::GeneralTerm) -> fol::Formula {
+        let mut guards = vec![fol::Guard { relation: fol::Relation::Equal, term: r }];
+        if self.rng.chance(1, 5) {
+            guards.push(fol::Guard { relation: self.relation(), term: self.gterm(1) });
+        }
+        fol::Formula::AtomicFormula(fol::AtomicFormula::Comparison(fol::Comparison { term: l, guards }))
+    }
+
     fn bin(c: fol::BinaryConnective, l: fol::Formula, r: fol::Formula) -> fol::Formula {
         fol::Formula::BinaryFormula { connective: c, lhs: Box::new(l), rhs: Box::new(r) }
     }
@@ -221,7 +243,7 @@ impl Gen {
                 // exists X.. (X = t and F)
                 let v = self.variable();
                 let t = self.term_of_sort(v.sort, 1);
-                let e = if self.rng.chance(1, 2) { Self::eq(v.clone().into(), t) } else { Self::eq(t, v.clone().into()) };
+                let e = if self.rng.chance(1, 2) { self.eq_chain(v.clone().into(), t) } else { self.eq_chain(t, v.clone().into()) };
                 let body = if self.rng.chance(1, 2) { Self::bin(Conjunction, e, self.formula(d)) } else { Self::bin(Conjunction, self.formula(d), e) };
                 let mut vs = vec![v];
                 if self.rng.chance(1, 3) { vs.push(self.variable()); }
@@ -268,8 +290,8 @@ impl Gen {
                 // exists X Y (X = t and Y = t and F)
                 let x = self.variable(); let y = self.variable();
                 let t = self.gterm(1);
-                let e1 = if self.rng.chance(1, 2) { Self::eq(x.clone().into(), t.clone()) } else { Self::eq(t.clone(), x.clone().into()) };
-                let e2 = if self.rng.chance(1, 2) { Self::eq(y.clone().into(), t.clone()) } else { Self::eq(t.clone(), y.clone().into()) };
+                let e1 = if self.rng.chance(1, 2) { self.eq_chain(x.clone().into(), t.clone()) } else { self.eq_chain(t.clone(), x.clone().into()) };
+                let e2 = if self.rng.chance(1, 2) { self.eq_chain(y.clone().into(), t.clone()) } else { self.eq_chain(t.clone(), y.clone().into()) };
                 let f = self.formula(d);
                 let parts = match self.rng.below(3) { 0 => vec![e1, e2, f], 1 => vec![e1, f, e2], _ => vec![f, e1, e2] };
                 Self::quant(Exists, vec![x, y], fol::Formula::conjoin(parts))
@@ -304,6 +326,19 @@ impl Gen {
     }
 
     pub fn formula(&mut self, depth: usize) -> fol::Formula {
+        if depth > 0 && !self.fpool.is_empty() && self.rng.chance(1, 8) {
+            let f = self.rng.pick(&self.fpool).clone();
+            let neg = |f: fol::Formula| fol::Formula::UnaryFormula { connective: fol::UnaryConnective::Negation, formula: Box::new(f) };
+            return match self.rng.below(8) { 0 | 1 => neg(f), 2 => neg(neg(f)), _ => f };
+        }
+        let f = self.formula_new(depth);
+        if formula_size(&f) <= 6 && self.rng.chance(1, 2) {
+            if self.fpool.len() < 6 { self.fpool.push(f.clone()); } else { let k = self.rng.below(6); self.fpool[k] = f.clone(); }
+        }
+        f
+    }
+
+    fn formula_new(&mut self, depth: usize) -> fol::Formula {
         if depth == 0 {
             return fol::Formula::AtomicFormula(self.atomic());
         }
